@@ -1,10 +1,298 @@
 /-
-  Model module `Thunk` (driver op `thunk`). Import-free apart from RsjModel.* modules.
+  Model module `Thunk` (driver op `thunk`): the abstract call-by-need machine
+  of properties C04 and C11.
+
+  It is the small abstraction of the thunk protocol of
+  `rsjsonnet-lang/src/program/data.rs` (`ThunkData`, `ThunkState`,
+  `switch_state`, `set_done`, `restore_pending`) and of
+  `rsjsonnet-lang/src/program/eval/mod.rs` (`State::DoThunk`, `State::GotThunk`,
+  `want_thunk_direct`, the error path at the top of `Evaluator::eval`):
+
+  * a store is a list of thunk states `pending | inProgress | done v`
+    (`ThunkState::{Pending, InProgress, Done}`); the pending computation of a
+    thunk is fixed (`PendingThunk` is immutable: `switch_state` moves it into
+    the `GotThunk` frame and `restore_pending` puts the very same value back),
+    so it lives outside the mutable store, in `Code`;
+  * `force` on `done v` pushes `v` and touches nothing (`switch_state` on
+    `Done`, and the fast path of `want_thunk_direct`); on a thunk that is not
+    done one more stack-trace item is pushed first (`want_thunk_direct` →
+    `push_trace_item`), and the `stack_trace_len > max_stack` test at the bottom
+    of the `run` loop fires before the `DoThunk` state is popped: StackOverflow
+    has priority over InfiniteRecursion; `InProgress` → InfiniteRecursion;
+    `Pending` → `InProgress` + `GotThunk` frame, the computation runs, and
+    `GotThunk` performs `set_done` on success; on an error nothing is undone
+    inside `run`;
+  * a *request* (`Evaluator::eval`) that fails restores every `GotThunk` frame
+    still on the state stack, i.e. every thunk still `InProgress`, to `Pending`
+    (`restore_pending`), thunks that completed stay `Done`.
+
+  Termination.  The only recursion of the machine is nested forcing, and every
+  nested force of a not-yet-done thunk consumes one unit of the depth budget
+  (`limit - depth`, called headroom `h`).  The headroom is therefore at the
+  same time the *fuel* of the model: "out of fuel" and "StackOverflow" are the
+  same outcome, the machine is total by structural recursion on `h`, and fuel
+  monotonicity is `more headroom never changes an outcome other than
+  StackOverflow` (`RsjProofs/Thunk.lean: force_mono`).
+
+  Garbage collection is a no-op request on this abstraction: a collection
+  (`Program::gc`, `maybe_gc`) only frees objects unreachable from the roots,
+  every thunk a later request can name is reachable from a root (`Thunk`
+  handles and the source cache are roots), and a thunk's state is never changed
+  by tracing — see the `Gc` model (C10) for that half.
+
+  Import-free apart from RsjModel.* modules.
 -/
 import RsjModel.Util
 namespace Rsj.Thunk
 
-/-- `thunk <args...>` : one canonical answer line, or `none` for a malformed request. -/
-def handle (_args : List String) : Option String := none
+abbrev Val := Nat
+
+inductive Err where
+  | infiniteRecursion
+  | stackOverflow
+  /-- a runtime error raised by the computation itself (`error "..."`, type errors, ...) -/
+  | user (code : Nat)
+  /-- forcing an index outside the store; unreachable in the implementation
+      (a `Gc<ThunkData>` always points to a live thunk), kept as an outcome -/
+  | badThunk
+deriving DecidableEq, Repr
+
+inductive TState where
+  | pending
+  | inProgress
+  | done (v : Val)
+deriving DecidableEq, Repr
+
+/-- The computation of a thunk: it can emit `std.trace` messages, force other
+    thunks and continue depending on their values, fail, or return. -/
+inductive Prog where
+  | ret (v : Val)
+  | fail (e : Nat)
+  | force (t : Nat) (k : Val → Prog)
+  | trace (m : Nat) (k : Prog)
+
+/-- The fixed assignment of pending computations to thunk indices. -/
+abbrev Code := Nat → Prog
+
+structure St where
+  states : List TState
+  /-- how many times the computation of each thunk was started -/
+  runs : List Nat
+  /-- emitted `std.trace` messages, oldest first -/
+  traces : List Nat
+deriving DecidableEq, Repr
+
+abbrev Outcome := Except Err Val
+abbrev Res := Outcome × St
+
+def St.setState (s : St) (t : Nat) (x : TState) : St := { s with states := s.states.set t x }
+def St.bump (s : St) (t : Nat) : St := { s with runs := s.runs.modify t (· + 1) }
+def St.emit (s : St) (m : Nat) : St := { s with traces := s.traces ++ [m] }
+
+/-- Run a computation; `forceF` is the machine for nested forcing. -/
+def runProg (forceF : Nat → St → Res) : Prog → St → Res
+  | .ret v, s => (.ok v, s)
+  | .fail e, s => (.error (.user e), s)
+  | .trace m k, s => runProg forceF k (s.emit m)
+  | .force t k, s =>
+    match forceF t s with
+    | (.ok v, s1) => runProg forceF (k v) s1
+    | (.error e, s1) => (.error e, s1)
+
+/-- `switch_state` on a pending thunk: it is now in progress, and its
+    computation is started once more. -/
+def mark (s : St) (t : Nat) : St := (s.setState t .inProgress).bump t
+
+/-- `State::GotThunk`: `set_done` when the computation succeeded; an error
+    leaves the thunk in progress. -/
+def finish (t : Nat) : Res → Res
+  | (.ok v, s2) => (.ok v, s2.setState t (.done v))
+  | (.error e, s2) => (.error e, s2)
+
+/-- `State::DoThunk` … `State::GotThunk` with `h` levels of nesting left. -/
+def force (code : Code) : Nat → Nat → St → Res
+  | 0, t, s =>
+    match s.states[t]? with
+    | none => (.error .badThunk, s)
+    | some (.done v) => (.ok v, s)
+    | some _ => (.error .stackOverflow, s)
+  | h + 1, t, s =>
+    match s.states[t]? with
+    | none => (.error .badThunk, s)
+    | some (.done v) => (.ok v, s)
+    | some .inProgress => (.error .infiniteRecursion, s)
+    | some .pending =>
+      finish t (runProg (force code h) (code t) (mark s t))
+
+/-- The error path of `Evaluator::eval`: every thunk still in progress goes
+    back to pending. -/
+def unmark : TState → TState
+  | .inProgress => .pending
+  | x => x
+
+def restore (s : St) : St := { s with states := s.states.map unmark }
+
+/-- The end of `Evaluator::eval`: on failure the `GotThunk` frames are drained. -/
+def settle : Res → Res
+  | (.ok v, s') => (.ok v, s')
+  | (.error e, s') => (.error e, restore s')
+
+/-- `Evaluator::eval` on one root thunk with depth limit `limit`. -/
+def evalReq (code : Code) (limit : Nat) (t : Nat) (s : St) : Res :=
+  settle (force code limit t s)
+
+inductive Req where
+  | eval (t : Nat)
+  /-- explicit collection between requests: no effect on thunk states (see header) -/
+  | gc
+deriving DecidableEq, Repr
+
+/-- One request; `gc` has no outcome. -/
+def runReq (code : Code) (limit : Nat) : Req → St → Option Outcome × St
+  | .eval t, s => let r := evalReq code limit t s; (some r.1, r.2)
+  | .gc, s => (none, s)
+
+/-- A history of requests on one long-lived store. -/
+def runHistory (code : Code) (limit : Nat) : List Req → St → List (Option Outcome) × St
+  | [], s => ([], s)
+  | q :: qs, s =>
+    let r := runReq code limit q s
+    let rest := runHistory code limit qs r.2
+    (r.1 :: rest.1, rest.2)
+
+/-- The pristine store with `n` thunks. -/
+def init (n : Nat) : St :=
+  { states := List.replicate n .pending, runs := List.replicate n 0, traces := [] }
+
+/-- The outcome of a request on the pristine store. -/
+def denot (code : Code) (limit : Nat) (n : Nat) : Req → Option Outcome
+  | q => (runReq code limit q (init n)).1
+
+/-! ### Driver: a first-order syntax for computations -/
+
+inductive Expr where
+  | const (n : Nat)
+  | var (i : Nat)
+  | add (a b : Expr)
+
+inductive Syn where
+  | ret (e : Expr)
+  | fail (e : Nat)
+  | force (t : Nat) (k : Syn)
+  | trace (m : Nat) (k : Syn)
+  | ifz (c : Expr) (a b : Syn)
+
+def Expr.eval (env : List Val) : Expr → Val
+  | .const n => n
+  | .var i => env.getD i 0   -- the parser rejects out-of-scope variables
+  | .add a b => a.eval env + b.eval env
+
+def Syn.compile : Syn → List Val → Prog
+  | .ret e, env => .ret (e.eval env)
+  | .fail e, _ => .fail e
+  | .force t k, env => .force t (fun v => k.compile (env ++ [v]))
+  | .trace m k, env => .trace m (k.compile env)
+  | .ifz c a b, env => if c.eval env = 0 then a.compile env else b.compile env
+
+def tagNat (tag : Char) (tok : String) : Option Nat :=
+  match tok.toList with
+  | c :: rest => if c = tag ∧ !rest.isEmpty then (String.ofList rest).toNat? else none
+  | [] => none
+
+/-- `c<n>` | `v<i>` (with `i < depth`) | `a` e e -/
+def parseExpr : Nat → Nat → List String → Option (Expr × List String)
+  | 0, _, _ => none
+  | _ + 1, _, [] => none
+  | fuel + 1, depth, tok :: rest =>
+    if tok = "a" then
+      match parseExpr fuel depth rest with
+      | some (a, rest1) =>
+        match parseExpr fuel depth rest1 with
+        | some (b, rest2) => some (.add a b, rest2)
+        | none => none
+      | none => none
+    else match tagNat 'c' tok with
+      | some n => some (.const n, rest)
+      | none =>
+        match tagNat 'v' tok with
+        | some i => if i < depth then some (.var i, rest) else none
+        | none => none
+
+/-- `r` e | `x<n>` | `f<t>` p | `t<m>` p | `z` e p p -/
+def parseSyn : Nat → Nat → List String → Option (Syn × List String)
+  | 0, _, _ => none
+  | _ + 1, _, [] => none
+  | fuel + 1, depth, tok :: rest =>
+    if tok = "r" then
+      match parseExpr (fuel + 1) depth rest with
+      | some (e, rest1) => some (.ret e, rest1)
+      | none => none
+    else if tok = "z" then
+      match parseExpr (fuel + 1) depth rest with
+      | some (c, rest1) =>
+        match parseSyn fuel depth rest1 with
+        | some (a, rest2) =>
+          match parseSyn fuel depth rest2 with
+          | some (b, rest3) => some (.ifz c a b, rest3)
+          | none => none
+        | none => none
+      | none => none
+    else match tagNat 'x' tok with
+      | some e => some (.fail e, rest)
+      | none =>
+        match tagNat 'f' tok with
+        | some t =>
+          match parseSyn fuel (depth + 1) rest with
+          | some (k, rest1) => some (.force t k, rest1)
+          | none => none
+        | none =>
+          match tagNat 't' tok with
+          | some m =>
+            match parseSyn fuel depth rest with
+            | some (k, rest1) => some (.trace m k, rest1)
+            | none => none
+          | none => none
+
+def parseThunk (s : String) : Option Prog :=
+  let toks := s.splitOn ","
+  match parseSyn (toks.length + 1) 0 toks with
+  | some (p, []) => some (p.compile [])
+  | _ => none
+
+def parseReq (s : String) : Option Req :=
+  if s = "g" then some .gc else (tagNat 'e' s).map Req.eval
+
+def showErr : Err → String
+  | .infiniteRecursion => "InfiniteRecursion"
+  | .stackOverflow => "StackOverflow"
+  | .user c => s!"User:{c}"
+  | .badThunk => "BadThunk"
+
+def showOutcome : Option Outcome → String
+  | none => "gc"
+  | some (.ok v) => s!"ok:{v}"
+  | some (.error e) => "err:" ++ showErr e
+
+def showState : TState → String
+  | .pending => "p"
+  | .inProgress => "i"
+  | .done v => s!"d{v}"
+
+def codeOfList (ps : List Prog) : Code := fun t => ps.getD t (.fail 0)
+
+/-- `thunk <limit> <thunk>/<thunk>/... <req> <req> ...`
+    thunk = comma-separated prefix tokens (see `parseSyn`), all thunks start
+    pending; req = `e<t>` | `g`.
+    Answer: `<outcome>;...;<outcome> R<runs> T<traces> S<states>`. -/
+def handle (args : List String) : Option String := do
+  match args with
+  | lim :: store :: reqs =>
+    let limit ← lim.toNat?
+    let ps ← (store.splitOn "/").mapM parseThunk
+    let qs ← reqs.mapM parseReq
+    let (outs, s) := runHistory (codeOfList ps) limit qs (init ps.length)
+    pure (";".intercalate (outs.map showOutcome) ++ " R" ++ showNatList s.runs
+      ++ " T" ++ showNatList s.traces ++ " S" ++ ",".intercalate (s.states.map showState))
+  | _ => none
 
 end Rsj.Thunk
